@@ -14,8 +14,10 @@ TRUSTED_BASE = [
     "and returns (same type or int->long), final variables, void misuse, return rules, use before declaration, redeclaration, condition types; its soundness "
     "against the reference interpreter is a theorem (Soundness.checked_programs_never_get_stuck). The class-level checker (Lang/ClassTyping.v: subclass "
     "assignability, null, member access control by declaring class, overload choice by least conversion cost on static types, constructors and super(...), "
-    "final fields once per constructor, static context, abstract/static classes) is a definition compared with the analyser on mutated class programs; no "
-    "theorem is stated about it (partial). @quantum/@shots rules and the rules in positions the generators do not reach are checked by violating/repaired "
+    "final fields once per constructor, static context, abstract/static classes) is compared with the analyser on mutated class programs; proved about it "
+    "(Lang/ClassRules.v): acceptance of a program is acceptance of every body in the context of its position, and the rule for each expression form holds "
+    "at every position of an accepted body (statement nesting, loop headers and steps, any expression depth). Its soundness against the object-layer "
+    "interpreter is not proved (partial). @quantum/@shots rules and the rules in positions the generators do not reach are checked by violating/repaired "
     "program pairs only",
 ]
 
